@@ -21,7 +21,7 @@ func allPropsUnsorted() []*propInfo {
 				"C01.4 the pull selection has exactly {completed_at IS NULL, expires_at > now, subscription_id = verified sub, attempt_at <= now} (+ the ordering gate only for ordered subscriptions); " +
 				"C01.5 attempts / not_before_id have a single writer; C02.2 (shared) every update/delete of delivery rows is addressed by delivery id or scoped to the subscription resolved in the same operation. " +
 				"C04.9 (shared) no two predicate lists are appended to one spare-capacity base slice when both appends can run; C13.3 (shared) the snapshot watermark is the looked-up delivery's published_at itself. " +
-				"C07.6 (shared) AND / OR chains evaluate every term with the right short-circuit value. NOT decided: clock arithmetic (that attempt_at/expires_at values make a message due again), database semantics, the history-level claim itself.",
+				"C07.6 (shared) AND / OR chains evaluate every term with the right short-circuit value. C14.3 / C14.6 (shared) the subscription's own expiry clock is restarted with its TTL (a subscription swept early takes its outstanding messages with it). NOT decided: clock arithmetic (that attempt_at/expires_at values make a message due again), database semantics, the history-level claim itself.",
 			Assumptions: []string{k1Assumption, "database executes the statements as ent renders them"},
 			Rules: []ruleFn{
 				{ID: "C14.3", Doc: "(shared: a subscription swept before its TTL takes its outstanding messages with it) [dom] every pull restarts the subscription clock", Run: ruleC14_3},
@@ -49,7 +49,7 @@ func allPropsUnsorted() []*propInfo {
 				"C02.3 message rows are immutable (no generated setter for content columns, no update statement on messages, created only by publish, deleted only by the completed-messages prune job); " +
 				"C02.4 content provenance (K9 data dependence): request field -> action parameter -> column -> pull result -> gRPC field, each depending on its own source field and on no other content field; MessageIds[i] is the id of the i-th stored message. " +
 				"C13.3 (shared) a snapshot records only its own subscription's deliveries; C02.4 also requires the stored payload and attributes to be the request's values unchanged. " +
-				"C07.6 (shared) chain evaluation; C02.4 also: payload / attributes handed to the client are the stored field itself on every path (no special-cased or recomputed value). NOT decided: JSON value equality through jsonb/text storage, duplicates within one response (primary-key fact), histories.",
+				"C07.6 (shared) chain evaluation; C02.4 also: payload / attributes handed to the client are the stored field itself on every path (no special-cased or recomputed value). C02.4 also: every content field of the publish parameters is written on every path to the publish of each message. NOT decided: JSON value equality through jsonb/text storage, duplicates within one response (primary-key fact), histories.",
 			Assumptions: []string{k1Assumption, "protobuf/ent field names correspond one-to-one as in the generated code"},
 			Rules: []ruleFn{
 				{ID: "C07.6", Doc: "(shared) leaf and combinator shapes (idiom-bound)", Run: ruleC07_6},
@@ -68,7 +68,7 @@ func allPropsUnsorted() []*propInfo {
 				"C03.1 deliveries.completed_at is cleared only by the two seek actions; C03.2 the pull selection excludes completed rows on every path; " +
 				"C03.3 delivery rows are created only by deliverToSubscription, called only from publish and dead-letter forwarding (no path re-enqueues an acked message); " +
 				"C03.4 ack/nack/modify-deadline return only errors that originate from storage/helper calls (no self-made error for unknown, stale or foreign ids) and their bulk statements are addressed by id IN <ids>. " +
-				"C06.5 (shared) a nack selects only outstanding rows, so a late nack of an acked id neither forwards it to the dead-letter topic nor rewrites it. Deliberately not demanded: the completed_at IS NULL guard in modify-deadline (dropping it does not resurrect an acked message: the pull excludes completed rows). C01.2 (shared) ack statements are keyed by exactly the request's ids; C03.5 ack ids are converted completely and in place or the request fails; C04.9 (shared) no aliased predicate appends; C09.2 / C09.3 (shared) commit errors are reported. C03.6 every StreamingPull frame, the opening one included, reaches the streamer through adaptIn. NOT decided: the history-level claim.",
+				"C06.5 (shared) a nack selects only outstanding rows, so a late nack of an acked id neither forwards it to the dead-letter topic nor rewrites it. Deliberately not demanded: the completed_at IS NULL guard in modify-deadline (dropping it does not resurrect an acked message: the pull excludes completed rows). C01.2 (shared) ack statements are keyed by exactly the request's ids; C03.5 ack ids are converted completely and in place or the request fails; C04.9 (shared) no aliased predicate appends; C09.2 / C09.3 (shared) commit errors are reported. C03.6 every StreamingPull frame, the opening one included, reaches the streamer through adaptIn. C06.1 (shared) only pull, nack and the sweep dead-letter. NOT decided: the history-level claim.",
 			Assumptions: []string{k1Assumption},
 			Rules: []ruleFn{
 				{ID: "C06.1", Doc: "(shared: only pull, nack and the sweep may dead-letter: a modify-deadline that does so forwards deliveries a late nack must not touch) [who] callers of deadLetterDelivery", Run: ruleC06_1, Ctrl: true},
@@ -135,7 +135,7 @@ func allPropsUnsorted() []*propInfo {
 				"C06.3 after a successful dead-letter call the same iteration neither appends the delivery to the pull result nor reschedules it; " +
 				"C06.4 the source delivery (data.DeliveryID) is completed on the same tx on every successful path, the forward set is the live subscriptions of the live dead-letter topic, every one reaches deliverToSubscription, the forwarded message is the original row loaded whole by id; " +
 				"C06.5 a nack's candidates are outstanding (id IN ids, completed_at IS NULL, expires_at > now, in the query) and its dead-letter / reschedule loop walks the selected rows (each candidate once), not the request's id list. " +
-				"C17.4 (shared) a dead-letter topic is attached only as the entity a lookup returned for this request. NOT decided: 'exactly once' under concurrent PostgreSQL transactions, counting N over histories, topology effects.",
+				"C17.4 (shared) a dead-letter topic is attached only as the entity a lookup returned for this request. C06.4 also: the retiring update is addressed by the delivery id and nothing else. NOT decided: 'exactly once' under concurrent PostgreSQL transactions, counting N over histories, topology effects.",
 			Assumptions: []string{k1Assumption},
 			Rules: []ruleFn{
 				{ID: "C17.4", Doc: "[dep] (shared) a dead-letter topic is attached only from a lookup made for the request (live row), never from a cached edge", Run: ruleC17_4},
@@ -157,7 +157,7 @@ func allPropsUnsorted() []*propInfo {
 				"C12.5 each List handler's prefix kind equals its entity's name-validator kind, keyset pagination is consistent (ORDER BY id ASC, id > token only when a token is given, LIMIT pageSize, next token = last SCANNED row iff a full page was scanned); " +
 				"C12.6 project scoping is case-exact (every listed row passes strings.HasPrefix(row.Name, prefix) over the same prefix, or the SQL atom is case-exact). " +
 				"C12.2 also: nothing classifies the save error before the duplicate-key test in a way a unique violation can satisfy; the classifier answers yes exactly for SQLSTATE 23505 of a *pgconn.PgError or the SQLite sibling's verdict. " +
-				"C12.5 also: the scanned rows are not sorted or overwritten before the page token is taken; C17.4 (shared). NOT decided: races under PostgreSQL isolation levels, histories, 'inherits no backlog' beyond C12.3.",
+				"C12.5 also: the scanned rows are not sorted or overwritten before the page token is taken; C17.4 (shared). C12.7 every lookup of snapshots selects by name / id / prefix only (the siblings agree on which snapshots exist). NOT decided: races under PostgreSQL isolation levels, histories, 'inherits no backlog' beyond C12.3.",
 			Assumptions: []string{k1Assumption, "SQLite evaluates LIKE case-insensitively, PostgreSQL case-sensitively (documented behaviour)"},
 			Rules: []ruleFn{
 				{ID: "C12.7", Doc: "[atoms] every lookup of snapshots selects by name / id / prefix only: the siblings agree on which snapshots exist", Run: ruleC12_7},
@@ -178,7 +178,7 @@ func allPropsUnsorted() []*propInfo {
 				"C13.2 seek-to-snapshot = ack{< B} ∪ ack{IN L} / re-open{>= B ∧ NOT IN L ∧ completed} over the resolved snapshot's watermark B and id list L, every update scoped to the resolved subscription, same re-open mutators; " +
 				"C13.3 snapshot contents: B = published_at of the oldest outstanding delivery of the subscription, L = messages of the subscription's topic at/after B whose delivery on THIS subscription is completed (or absent). " +
 				"C13.3 also: the stored watermark is the published_at field of the looked-up delivery itself (no rounding, no other column). " +
-				"NOT decided: the set equality over histories; join semantics of the id-list query.",
+				"C13.1 also: the acknowledging half of a seek rewrites completed_at only. NOT decided: the set equality over histories; join semantics of the id-list query.",
 			Assumptions: []string{k1Assumption},
 			Rules: []ruleFn{
 				{ID: "C13.1", Doc: "[atoms] seek-to-time is a partition", Run: ruleC13_1},
@@ -192,7 +192,7 @@ func allPropsUnsorted() []*propInfo {
 				"C14.1 a delivery is created with expires_at = now + s.MessageTTL, attempt_at = now + s.DeliveryDelay, published_at = now (idiom-bound: time.Time.Add of a conversion of the field); C14.2 the pull requires expires_at > now; " +
 				"C14.3 every pull restarts the subscription clock: a refresh (expires_at = now + ttl) in its own committed transaction precedes the wait loop, and applyResults refreshes on every successful path; " +
 				"C14.4 the expiry sweep selects exactly expires_at < now (live) rows and soft-deletes exactly those; C14.5 the delay injector rejects negative delays before storing. " +
-				"Revived messages get fresh retention: C13.1/C13.2 re-open mutators (evaluated under C13). C14.6 every write of a subscription's expires_at is now + its expiration TTL and derives from nothing that is the message retention. NOT decided: exactness of durations, timing around deadlines, the interval codec.",
+				"Revived messages get fresh retention: C13.1/C13.2 re-open mutators (evaluated under C13). C14.6 every write of a subscription's expires_at is now + its expiration TTL and derives from nothing that is the message retention. C14.6 also: where a statement stores a new ttl the deadline is computed from that value; C17.5 (shared) zero durations select the defaults. NOT decided: exactness of durations, timing around deadlines, the interval codec.",
 			Assumptions: []string{k1Assumption},
 			Rules: []ruleFn{
 				{ID: "C17.5", Doc: "[dom] (shared) zero durations select the documented defaults", Run: ruleC17_5},
@@ -234,7 +234,7 @@ func allPropsUnsorted() []*propInfo {
 				"C09.3 (K4) every wake-up call in package actions sits in an ent.CommitFunc registered through tx.OnCommit and is dominated by the nil edge of the wrapped Commit; outside actions only the LISTEN/NOTIFY receiver may wake; " +
 				"C09.4 a Publish batch shares one transaction, a stream request's acks and nacks share one, no unary handler opens a transaction inside a loop, a mutation outside a transaction is the single statement of its operation; " +
 				"C09.5 no unary handler returns an error on a path where its transaction already committed; C09.6 no action Execute updates one of its own parameters from that parameter's previous value (the retrying runner re-executes the same operation). " +
-				"C09.9 the ids woken after a commit are the transaction's own values, never package-level state shared between transactions. NOT decided: driver/database atomicity, cancellation timing, 'retry has the same effect', the pull's first (expiry-refresh) transaction committing before a later one fails.",
+				"C09.9 the ids woken after a commit are the transaction's own values, never package-level state shared between transactions. C09.1 also: an error carried round a loop is examined inside the loop; C09.8 follows code-picking helpers and named results that may hold their zero value. NOT decided: driver/database atomicity, cancellation timing, 'retry has the same effect', the pull's first (expiry-refresh) transaction committing before a later one fails.",
 			Assumptions: []string{k1Assumption, "the SQL driver makes a transaction atomic; Rollback undoes every statement of it"},
 			Rules: []ruleFn{
 				{ID: "C10.8", Doc: "[dep] (C09.9 clause) the ids woken after a commit are the transaction's own values, never package-level state shared between transactions", Run: ruleC10_8},
@@ -256,7 +256,7 @@ func allPropsUnsorted() []*propInfo {
 				"C10.4 every writer that can make a message deliverable (create delivery, zero/negative modify-deadline, seeks, ack, dead-letter, prune-expired) notifies the affected subscription on every successful path, skipping only when the mutation's own result is empty; " +
 				"C10.5 = C09.3 (wake after the commit, so the re-query sees the change); C10.6 the waiter/hook maps are accessed only with nmu held (K3 lockset); C10.7 each closed waiter channel is removed from its set under the same lock. " +
 				"C10.1 follows the wait into a private helper (every way out of the call is a possible wake edge); C10.4 the dead-letter step wakes the source subscription. " +
-				"C10.8 originating wake-ups are announced to the notifier hooks (onlyInternal=false); true only on the receiving side or next to a WakeSubscriptionListeners(false) for the same id. NOT decided: latency ('promptly'), the PostgreSQL LISTEN/NOTIFY path, schedules as such.",
+				"C10.8 originating wake-ups are announced to the notifier hooks (onlyInternal=false); true only on the receiving side or next to a WakeSubscriptionListeners(false) for the same id. C10.2 also: no hand-made nil edge in the waited channel. NOT decided: latency ('promptly'), the PostgreSQL LISTEN/NOTIFY path, schedules as such.",
 			Assumptions: []string{k1Assumption, "Go channel close wakes every receiver; sync.Mutex semantics"},
 			Rules: []ruleFn{
 				{ID: "C10.8", Doc: "[tab] originating wake-ups are announced to the notifier hooks (onlyInternal = false); true only on the receiving side", Run: ruleC10_8},
@@ -274,7 +274,7 @@ func allPropsUnsorted() []*propInfo {
 				"C16.1 no explicit panic (today: the precondition panics of the actions.New* constructors) is reachable for any request field values; C16.2 no request sub-message that may be absent is dereferenced (field access or non-nil-safe method) without a dominating nil test. " +
 				"C16.3 (rejected requests change nothing) = C09.1/C09.4/C09.5 evaluated under C09. " +
 				"C16.4 (K9b path-sensitive provenance through the transaction closure and clamping helpers) the effective page size of every List handler is >= 1 on every path. " +
-				"C06.2 (shared) the dead-letter trigger and HasFullDeadLetterConfig, which guard the *DeadLetterTopicID dereference in deadLetterDataFromEntities. NOT decided: index/slice bounds in general, resource exhaustion, hangs, panics inside third-party code, requests arriving on a stream after the first (their fields are treated as unconstrained but their sub-messages are only checked when dereferenced in the handler itself).",
+				"C06.2 (shared) the dead-letter trigger and HasFullDeadLetterConfig, which guard the *DeadLetterTopicID dereference in deadLetterDataFromEntities. C16.5 an eager-loaded edge loaded with a filter is dereferenced only under a nil test; C16.6 every value added to a Prometheus counter is the conversion of an integer count. NOT decided: index/slice bounds in general, resource exhaustion, hangs, panics inside third-party code, requests arriving on a stream after the first (their fields are treated as unconstrained but their sub-messages are only checked when dereferenced in the handler itself).",
 			Assumptions: []string{
 				"gRPC never passes a nil request; elements of repeated message fields are non-nil (protobuf decoding)",
 				"protobuf-generated Get* accessors, (*durationpb.Duration).AsDuration, (*timestamppb.Timestamp).AsTime, CheckValid/IsValid are nil-safe",
@@ -319,7 +319,7 @@ func allPropsUnsorted() []*propInfo {
 				"C18.3 (K3 lockset) Set.faults is read under mu.RLock/Lock and written under mu.Lock; C18.4 Description.match returns true only with count > 0, equal operation, and every injected parameter present and equal; C18.5 prune/Current separate live from exhausted descriptions by count > 0; " +
 				"C18.6 the pooled parameter map of the gRPC interceptor is emptied unconditionally before the request's fields are written (also before a closure that writes it is handed out). " +
 				"C18.3 fresh-write: what is written to the fault table under the exclusive lock is computed inside that critical section (not from a shared-lock read or a helper that takes the mutex itself); C18.7 interceptor discipline. " +
-				"C18.4 also: match says no only under an exhausted count, another operation, or a missing / different injected parameter (judged per path). NOT decided: the exact count min(N, matches) over schedules (C18.1/2 are its memory-ordering and re-check conditions), request-to-parameter extraction for all messages.",
+				"C18.4 also: match says no only under an exhausted count, another operation, or a missing / different injected parameter (judged per path). C18.8 the request-to-parameter extraction reads no package-level state besides the pool. NOT decided: the exact count min(N, matches) over schedules (C18.1/2 are its memory-ordering and re-check conditions), request-to-parameter extraction for all messages.",
 			Assumptions: []string{"sync/atomic and sync.RWMutex semantics"},
 			Rules: []ruleFn{
 				{ID: "C18.8", Doc: "[who] the request-to-parameter extraction reads no package-level state besides the pool", Run: ruleC18_8},
@@ -340,7 +340,7 @@ func allPropsUnsorted() []*propInfo {
 				"C19.3 (K6 intervals) inductive invariant of the adaptive window: assuming maxMessages ∈ [1,1000] on entry of Receive every store keeps it there, initial value is a constant in range; " +
 				"C19.4 (K3) window state is accessed only under c.mu (the test-only reader CurrentFlowControl is the named exception); C19.5 Receive reports ids from the ack queues as Ack and ids from the nack queue as Nack. " +
 				"C11.4 / C11.7 (shared) the pusher's pending set is rebuilt completely from one query. " +
-				"NOT decided: 'never pushed again / pushed again after the backoff' (C03/C04 behaviour), concurrency <= window as a runtime count, out-of-order endpoints.",
+				"C19.2 also: the rendered publish time carries its zone (zone verb or UTC conversion). NOT decided: 'never pushed again / pushed again after the backoff' (C03/C04 behaviour), concurrency <= window as a runtime count, out-of-order endpoints.",
 			Assumptions: []string{"net/http reports transport failures as a non-nil error from Client.Do"},
 			Rules: []ruleFn{
 				{ID: "C19.2", Doc: "[tab] the rendered publish time carries its zone (zone verb or UTC conversion)", Run: ruleC19_2format},
@@ -360,7 +360,7 @@ func allPropsUnsorted() []*propInfo {
 				"C07.5 the call closure of Evaluate is pure (no package variables, no map iteration, no side effects, only strings.HasPrefix / errors.New / fmt.Errorf outside the module); " +
 				"C07.6 (idiom-bound) leaf shapes: presence bit; presence ∧ ==/!= under the matching operator; presence ∧ strings.HasPrefix(attribute, prefix); XOR with Not; AND/OR chains end with the first deciding term; Condition combines the first term with the matching chain. " +
 				"C07.1 skip-only-by-verdict: deliverToSubscription skips a subscription only on the filter's verdict or the absence of a filter; C08.6 (shared) the printer keeps grouping parentheses. " +
-				"C08.8 (shared) the filter parser is built with exactly UseLookahead and Unquote(String); C07.6 Term negation is a parity of Not flags. NOT decided: agreement with the documented Pub/Sub semantics over the infinite input space, boolean laws, precedence as implemented by participle.",
+				"C08.8 (shared) the filter parser is built with exactly UseLookahead and Unquote(String); C07.6 Term negation is a parity of Not flags. C08.1 (shared) the stored filter text is the validated text. NOT decided: agreement with the documented Pub/Sub semantics over the infinite input space, boolean laws, precedence as implemented by participle.",
 			Assumptions: []string{"participle builds the parser the struct tags describe", k1Assumption},
 			Rules: []ruleFn{
 				{ID: "C08.1", Doc: "(shared: the stored filter text is the validated text: the evaluated filter is the one the client wrote) [who][dom] validate before persist", Run: ruleC08_1},
@@ -400,7 +400,7 @@ func allPropsUnsorted() []*propInfo {
 			Explanation: "Static necessary conditions of 'configuration round-trips': " +
 				"C17.1 (K9 data dependence) every configuration field CreateSubscription accepts flows request → action parameter → its column, and every such column is read back by entSubscriptionToGrpc into the corresponding response field (labels, retention, expiration TTL, ordering flag, filter, retry policy, dead-letter policy, push endpoint; topics: labels); " +
 				"C17.2 update-mask locality: in UpdateSubscription / UpdateTopic the set of columns mutated under each mask path equals the frozen table, no column is mutated outside a mask path, unknown paths are rejected, and the no-op shortcut that skips the save checks every kind of mutation (set / cleared / added) the handler can apply; under a mask path with several stored columns every path sets or clears each of them (replace, not merge). " +
-				"C17.3 in the stored-duration codec no floating-point value computed from the parsed digits is truncated to an integer (a length-derived power of ten is exact and allowed; math.Round first is allowed) and a duration is never represented as a float (no Seconds/Minutes/Hours, FormatFloat/ParseFloat, or 64-bit-count-to-float conversion). C17.1 independence: the response field fed by column X sits under a test of X only, never of a sibling column (except attempts under the dead-letter topic). C17.2 also: the handlers switch on the mask's own path strings (a pass-through helper may fetch them, not compute new ones); C17.4 a dead-letter topic is attached only as the entity a lookup returned for this request, never a cached edge. NOT decided: the rest of the interval codec (all durations / all PostgreSQL interval strings — numeric), defaults' values, sequences of updates.",
+				"C17.3 in the stored-duration codec no floating-point value computed from the parsed digits is truncated to an integer (a length-derived power of ten is exact and allowed; math.Round first is allowed) and a duration is never represented as a float (no Seconds/Minutes/Hours, FormatFloat/ParseFloat, or 64-bit-count-to-float conversion). C17.1 independence: the response field fed by column X sits under a test of X only, never of a sibling column (except attempts under the dead-letter topic). C17.2 also: the handlers switch on the mask's own path strings (a pass-through helper may fetch them, not compute new ones); C17.4 a dead-letter topic is attached only as the entity a lookup returned for this request, never a cached edge. C17.5 zero durations select the documented defaults (a comparison with 0, also in a shared helper); C17.3 also: Interval.Value writes the exact duration. NOT decided: the rest of the interval codec (all durations / all PostgreSQL interval strings — numeric), defaults' values, sequences of updates.",
 			Assumptions: []string{k1Assumption, "protobuf/ent field names correspond one-to-one as in the generated code"},
 			Rules: []ruleFn{
 				{ID: "C17.5", Doc: "[dom] zero durations select the documented defaults (a comparison with 0, not only a nil test)", Run: ruleC17_5},
